@@ -174,3 +174,55 @@ func fingerprint(sd core.SignedData) (string, error) {
 
 	return string(b), err
 }
+
+func newExit(id int) core.SignedData {
+	return core.NewSignedVoluntaryExit(&eth2p0.SignedVoluntaryExit{
+		Message:   &eth2p0.VoluntaryExit{Epoch: eth2p0.Epoch(1000 + id), ValidatorIndex: eth2p0.ValidatorIndex(id)},
+		Signature: sigOf(id),
+	})
+}
+
+// scribble models a caller that owns what Await handed it and modifies it in place: signature
+// bytes, and whatever is reachable through the pointers / slices inside the value. It reports
+// whether the value kind has any such shared-able memory (plain value structs do not).
+func scribble(sd core.SignedData) bool {
+	switch v := sd.(type) {
+	case *probeData:
+		if v == nil {
+			return false
+		}
+		for i := range v.Sig {
+			v.Sig[i] = 0
+		}
+		for i := range v.Payload {
+			v.Payload[i] ^= 0xa5
+		}
+		v.ID = -v.ID
+
+		return true
+	case core.SignedSyncContributionAndProof:
+		if v.Message == nil {
+			return false
+		}
+		v.Message.SelectionProof = eth2p0.BLSSignature{}
+		v.Message.AggregatorIndex++
+		if c := v.Message.Contribution; c != nil {
+			c.Signature = eth2p0.BLSSignature{}
+			for i := range c.AggregationBits {
+				c.AggregationBits[i] ^= 0xff
+			}
+		}
+
+		return true
+	case core.SignedVoluntaryExit:
+		if v.Message == nil {
+			return false
+		}
+		v.Message.Epoch += 7
+		v.Message.ValidatorIndex += 7
+
+		return true
+	default:
+		return false
+	}
+}
